@@ -17,6 +17,7 @@ EXPLANATION = (
     "Parser.add returns a task as completed only under is_complete() and then discards it from the parser, "
     "otherwise stores it; parse_stream yields every completed task inside the loop and every incomplete task "
     "after the stream ends."
+    "  Every ordering computed by the parser model (sorted/min/max/sort) is keyed by task level only (C09.total): a key that is None for a placeholder node raises for exactly the subsets the property quantifies over."
 )
 RULE = ("obligation = rule instance bound to a statement/branch/loop of Task._insert_action, _ensure_node_parents, "
         "Task.add, Parser.add, parse_stream; non-trivial = dependency slice or CFG paths examined")
@@ -90,7 +91,7 @@ def rule_never_early(chk, prefix="C09"):
     cfg = ctx.cfg(f)
     comps = completion_nodes(cfg)
     chk.need(comps, "Task._insert_action no longer marks actions complete")
-    nparam = [a.arg for a in f.node.args.args][1]
+    nparam = f.pos_params[1]
     for cn in comps:
         sl = guard_slice(f, cfg, cn)
         texts = [(unparse(e), lab) for e, lab, t in sl]
@@ -147,7 +148,7 @@ def rule_upward(chk):
     enp = ctx.func("parse", "Task._ensure_node_parents")
     cfg = ctx.cfg(ia)
     # every return of _insert_action is <task>._ensure_node_parents(node)
-    nparam = [a.arg for a in ia.node.args.args][1]
+    nparam = ia.pos_params[1]
     ok = True
     rets = common.returns_of(cfg)
     for r in rets:
@@ -238,7 +239,7 @@ def rule_tail(chk, prefix="C09"):
     cfg = ctx.cfg(ps)
     inc = ctx.func("parse", "Parser.incomplete_tasks")
     padd = ctx.func("parse", "Parser.add")
-    iparam = [a.arg for a in ps.node.args.args][1]
+    iparam = ps.pos_params[1]
     main = [n for n in cfg.live if n.kind == "for_next" and isinstance(n.ast.iter, ast.Name) and n.ast.iter.id == iparam]
     chk.need(len(main) == 1, "parse_stream: main loop over the input not found")
     main = main[0]
@@ -292,7 +293,7 @@ def rule_add_dispatch(chk):
     enp = ctx.func("parse", "Task._ensure_node_parents")
     wstart = ctx.func("_action", "WrittenAction._start")
     wend = ctx.func("_action", "WrittenAction._end")
-    mparam = [a.arg for a in f.node.args.args][1]
+    mparam = f.pos_params[1]
     vals = assigned_values(f, "is_action")
     okd = False
     for n in iter_own_nodes(f.node):
@@ -375,8 +376,63 @@ def rule_model(chk, prefix="C09"):
     chk.req("sorted(self._children.values()" in tt and "m.task_level" in tt, "%s.model" % prefix, "WrittenAction.children:ordered-by-level", chk.where(ch), good="children sorted by task_level", fail="WrittenAction.children is `%s`" % tt[:100])
 
 
+ORDER_CALLS = {"sorted", "min", "max"}
+TOTAL_ORDER_KEYS = {"task_level", "_level", "level"}
+
+
+def rule_orderings(chk, prefix="C09"):
+    """Every ordering the parser computes compares task levels only (a total order, C09.model).  Ordering by a
+    value that is None for a placeholder node (start_time, end_time, a missing field) raises TypeError for
+    exactly the inputs the property is about: subsets with missing start messages."""
+    ctx = chk.ctx
+    p = ctx.p
+    funcs = [f for f in p.all_funcs() if f.module.short == "parse"
+             or (f.cls is not None and f.cls.name in ("WrittenAction", "WrittenMessage", "TaskLevel") and f.module.short in ("_action", "_message"))]
+    sites = 0
+    for f in funcs:
+        for n in iter_own_nodes(f.node):
+            if not isinstance(n, ast.Call):
+                continue
+            nm = n.func.id if isinstance(n.func, ast.Name) else (n.func.attr if isinstance(n.func, ast.Attribute) and n.func.attr == "sort" else None)
+            if nm not in ORDER_CALLS and nm != "sort":
+                continue
+            if nm in ("min", "max") and len(n.args) > 1 and not n.keywords:
+                continue  # min(a, b) of two numbers
+            sites += 1
+            key = next((k.value for k in n.keywords if k.arg == "key"), None)
+            what = None
+            if key is None:
+                what = "the elements themselves"
+                ok = False
+            elif isinstance(key, ast.Lambda):
+                body = key.body
+                while isinstance(body, ast.Call) and isinstance(body.func, ast.Attribute) and body.func.attr in ("as_list",):
+                    body = body.func.value
+                ok = isinstance(body, ast.Attribute) and body.attr in TOTAL_ORDER_KEYS
+                what = unparse(key.body)
+                if not ok and isinstance(body, ast.Attribute):
+                    # is it a property that can be None?
+                    for c in [c for mo in p.prod_modules() for c in mo.classes.values()]:
+                        m = c.methods.get(body.attr)
+                        if m is not None and c.name in ("WrittenAction", "WrittenMessage", "Task"):
+                            cfgm = ctx.cfg(m)
+                            rets = [x for x in cfgm.live if x.kind == "return"]
+                            implicit = any(l not in ("exc", "return") and s is cfgm.exit for x in cfgm.live for s, l in x.succ if x.kind != "return")
+                            if implicit or any(x.ast.value is None for x in rets):
+                                what += " (%s.%s is None when the message it reads is missing)" % (c.name, body.attr)
+            else:
+                ok = False
+                what = unparse(key)
+            chk.req(ok, "%s.total" % prefix, "%s:orders-by-task-level-only@%s" % (f.fq, nm), chk.where(f, n.lineno),
+                    good="`%s` orders by task level, which is total (C09.model)" % unparse(n)[:60],
+                    fail="`%s` orders by %s: for an arbitrary subset of a task's messages (placeholder nodes, missing start messages) the comparison raises TypeError "
+                         "and the incomplete tasks are never delivered" % (unparse(n)[:70], what))
+    chk.instances("%s.total:ordering calls in the parser model" % prefix, sites, 1)
+
+
 def run(chk):
     rule_model(chk)
+    rule_orderings(chk)
     rule_never_early(chk)
     rule_upward(chk)
     rule_once(chk)
